@@ -171,6 +171,49 @@ def extra_cases(rs, tier):
                     A[n1:, n1:] = rc.spanning_plus(rs, n - n1, 1, False, 1) if n - n1 > 1 else 0
                     p = rs.permutation(n); A = A[np.ix_(p, p)]
                     cases.append({'routine': r, 'A': A.tolist(), 'itr': 1, 'seed': seed(), 'malformed': 'disconnected'})
+    # ---- inputs inside the property's literal quantifier on which the real code is known to fail (known_findings.d/C11.json)
+    def base(n, und):
+        kind = rs.choice(['tree+', 'ring+', 'dense'])
+        if kind == 'tree+':
+            A = rc.spanning_plus(rs, n, int(rs.randint(0, 4)), not und, 1)
+        elif kind == 'ring+':
+            A = ring(n, und)
+            for _c in range(int(rs.randint(1, 4))):
+                i, j = rs.randint(n, size=2)
+                if i != j:
+                    A[i, j] = 1
+                    if und:
+                        A[j, i] = 1
+        else:
+            A = np.maximum(ring(n, und), rand_graph(rs, n, .4, not und))
+        return weights(rs, A, und, int(rs.choice([1, 9])))
+
+    for r in ROUTINES:
+        und = r in rc.UND
+        if r in rc.CONN:
+            # (a) connected / strongly connected networks WITH SELF-LOOPS (nonzero diagonal cells)
+            for _ in range(reps * 2):
+                n = int(rs.randint(4, 8 if not big else 11))
+                A = base(n, und)
+                for v in rs.choice(n, int(rs.randint(1, n)), replace=False):
+                    A[v, v] = int(rs.randint(1, 10))
+                if not rc.two_disjoint_edges(A - np.diag(np.diag(A)), und):
+                    continue
+                cases.append({'routine': r, 'A': A.tolist(), 'itr': int(rs.choice([1, 2, 3])), 'seed': seed(), 'kind': 'self-loops'})
+        if r in ('latmio_und', 'latmio_und_connected'):
+            # (b) caller-supplied ASYMMETRIC integer D for the undirected latticisers
+            for _ in range(reps * 2):
+                n = int(rs.randint(4, 9 if not big else 12))
+                A = base(n, True)
+                if not rc.two_disjoint_edges(A, True):
+                    continue
+                D = rs.randint(0, 7, size=(n, n)).astype(float)
+                if rs.rand() < .3:
+                    D = np.triu(D)          # one-sided
+                if np.array_equal(D, D.T):
+                    continue
+                cases.append({'routine': r, 'A': A.tolist(), 'itr': int(rs.choice([1, 2, 3])), 'seed': seed(), 'D': D.tolist(),
+                              'Dkind': 'asymmetric', 'kind': 'asym-D'})
     return cases
 
 
@@ -185,9 +228,11 @@ def evaluate(c, r):
     R = r['R']
     if rt in rc.CONN:
         cin = reaches_all(A, not und) if (not und or is_sym(A)) else False
-        cout = reaches_all(R, not und)
+        cout = reaches_all(R, True)      # all-pairs: also meaningful should an undirected routine return an asymmetric matrix
         if cin and not cout:
             F.append(('connected-out', {}))
+        if und and not is_sym(R):
+            F.append(('symmetric-out', {}))
         if cin != r['extra'].get('in_conn') or cout != r['extra'].get('out_conn'):
             F.append(('oracle-disagreement', {'bfs': [cin, cout], 'closure': [r['extra'].get('in_conn'), r['extra'].get('out_conn')]}))
     if rt in rc.LAT:
@@ -209,11 +254,32 @@ def evaluate(c, r):
     return F
 
 
+def has_self_loops(c):
+    A = c['A']
+    return any(A[i][i] != 0 for i in range(len(A)))
+
+
+def has_asym_D(c):
+    D = c.get('D')
+    return bool(c['routine'] in rc.LAT and c['routine'] in rc.UND and D is not None and not is_sym(D))
+
+
 def cond_of(c):
-    d = {'routine': c['routine']}
+    """keys the open known findings are matched on: computed from the input itself, never from a generator tag"""
+    d = {'routine': c['routine'], 'self_loops': has_self_loops(c), 'asymmetric_D': has_asym_D(c)}
     if c.get('malformed'):
         d['malformed'] = c['malformed']
     return d
+
+
+def run_case(c):
+    """rewire_common.run_case; for the budgeted routines (everything but partial_und, whose hangs are expected) a watchdog
+    hit is re-tried once with ten times the budget, so that a loaded machine cannot turn into a verdict"""
+    r = rc.run_case(c)
+    if r['status'] == 'timeout' and c['routine'] != 'partial_und':
+        r = rc.run_case(dict(c, t=10 * c.get('t', 4.0)))
+        r['retried'] = True
+    return r
 
 
 def main():
@@ -222,22 +288,24 @@ def main():
                       'randomize_graph_partial_und: rewire_common.gen_cases (labelled 4-node graphs, random graphs n=5..10(14), spanning tree / '
                       'Hamiltonian cycle plus chords) plus a C11 stream of bridge-rich graphs (tree+<=2 chords, rings, rings+chords, barbells, two rings '
                       'joined by a bridge; weights 1 or 1..9; default / random / linear / signed D, symmetric for the undirected latticisers; arbitrary 0/1 '
-                      'masks: symmetric, asymmetric, one-sided) and a malformed stream (asymmetric, disconnected) for the undirected _connected routines; non-trivial = distinct case in '
+                      'masks: symmetric, asymmetric, one-sided), a malformed stream (asymmetric, disconnected) for the undirected _connected routines, and the two '
+                      'known-finding families (connected inputs with 1..n-1 self-loops for the four _connected routines; asymmetric integer D for the two undirected '
+                      'latticisers); non-trivial = distinct case in '
                       'which the real routine performed at least one rewiring, or a malformed input that was rejected')
-    ck.assumptions += ['DOMAIN (restriction of the property quantifier): every input matrix has an EMPTY DIAGONAL (BCT convention: no self-connections); all '
-                       'connectivity theorems carry the hypothesis EmptyDiag and no generator produces self-loops - the routines neither clear nor reject a '
-                       'nonzero diagonal and their four-distinct-nodes test does not exclude a = b for a self-loop, so inputs with self-loops are outside the '
-                       'documented domain and outside what this check claims',
-                       'DOMAIN (restriction of the property quantifier): for latmio_und / latmio_und_connected the caller-supplied D is SYMMETRIC (a '
-                       'distance-to-diagonal matrix is symmetric); the undirected lattice-cost theorems carry the hypothesis Symm D and the generators produce '
-                       'symmetric D only for these two routines (arbitrary, also signed, integer D for latmio_dir / latmio_dir_connected)',
+    ck.assumptions += ['the theorems carry the hypotheses EmptyDiag (all connectivity theorems) and Symm D (undirected lattice cost); the property quantifier '
+                       'has neither, and on the complement the real code FAILS: inputs with self-loops (four _connected routines: disconnected / asymmetric '
+                       'output) and an asymmetric caller-supplied D (latmio_und, latmio_und_connected: cost increases) are generated, reproduced on every '
+                       'run and reported as the open known findings C11-selfloops-* / C11-asymD-cost-* (known_findings.d/C11.json, matched on the input '
+                       'itself: self_loops=true / asymmetric_D=true); Props/C11 *_selfloop_witness / *_asymD_witness show on the model that the '
+                       'hypotheses cannot be dropped; the same predicates on inputs without self-loops / with symmetric D remain plain violations',
                        'masks are arbitrary 0/1 matrices (symmetric, asymmetric, one-sided); no symmetry assumption on the mask',
                        'inputs have two vertex-disjoint edges; integer weights',
                        'connectivity clause is evaluated on connected (undirected) / strongly connected (directed) inputs only',
                        'rejection clause: Props/C11.precheck_rejects / precheck_ok are about Model/RewirePre.precheck (allclose -> equality on integer input, '
                        'number_of_components = the C16 model); the malformed stream and every well-formed call of the two undirected _connected routines go through '
                        'the driver Main/RewirePre and are compared with the real routines',
-                       'calls that hit the watchdog (rejection loops that cannot terminate) are counted as timeouts, not violations']
+                       'partial_und: calls that hit the 1.5 s watchdog (its rejection loop cannot terminate when no swap is admissible) are counted as '
+                       'timeouts; every other routine is re-tried with ten times the budget and a second timeout is the violation does-not-return']
     ok = ck.lean_gate(['BctVerif.Props.C11'], extra_modules=['BctVerif.Model.Rewire', 'BctVerif.Model.RewirePre'])
     if ck.tier == 'thorough' and ok:
         ck.leanchecker(['BctVerif.Props.C11', 'BctVerif.Model.Rewire', 'BctVerif.Model.RewirePre'])
@@ -248,7 +316,7 @@ def main():
         for c in cases:
             if c['routine'] == 'partial_und':
                 c['t'] = 1.5     # its `while nswap < maxswap` loop cannot terminate when no swap is admissible
-    results = pmap(rc.run_case, cases)
+    results = pmap(run_case, cases)
     lines, idx = [], []
     for n_, (c, r) in enumerate(zip(cases, results)):
         rt = c['routine']
@@ -264,7 +332,7 @@ def main():
             ck.count('malformed:' + c['malformed'])
             rej = r['status'] == 'exc' and exc_kind(r['exc']) == 'BCTParamError'
             ck.case(sample=None, nontrivial_key=digest(['malformed', rt, c['A']]) if rej else None)
-            if rt in UND_CONN and not rej and r['status'] != 'timeout':
+            if rt in UND_CONN and not rej:
                 ck.violation(rt, 'rejects-malformed', {'case': c, 'status': r['status'], 'exception': r.get('exc'), 'output': r.get('R')}, cond_of(c))
             elif rej:
                 ck.count('rejected:' + c['malformed'])
@@ -276,7 +344,11 @@ def main():
                         'extra': r.get('extra')} if moved else None,
                 nontrivial_key=digest([rt, c['A'], c.get('itr'), c.get('D'), c.get('B'), r['draws']]) if moved else None)
         if r['status'] == 'timeout':
+            if rt != 'partial_und':      # budgeted loops always return; this one was already re-tried with 10x the budget
+                ck.violation(rt, 'does-not-return', {'case': c}, cond_of(c))
             continue
+        if r.get('retried'):
+            ck.count('returned-after-retry')
         if r['status'] == 'exc':
             ck.violation(rt, 'raises', {'case': c, 'exception': r['exc']}, cond_of(c))
             continue
